@@ -195,7 +195,8 @@ UPDATES = {
                          + EV + "; mask-bit name tables and Display arms (generated code) by table rules and pinned snapshot",
             "text": "Line format holes and order; Module::disassemble on an abstract module (one instruction per section; complete function, function without definition but with parameters, "
                     "unlabelled and empty blocks; with and without header) renders exactly header, every global (OpConstant typed after all of types_global_values was tracked), and per function "
-                    "definition, parameters, labels, instructions (OpExtInst named after all imports were tracked), end, joined by newlines; each of the 64 operand variants is rendered by the renderer "
+                    "definition, parameters, labels, instructions (OpExtInst named after all imports were tracked), end, joined by newlines; the ExtInstSetTracker evaluated on a real tracker value over every "
+                    "history of up to three track() calls (two ids, both known sets, an unknown set, no result id, a non-import), what it knows read off through its own have()/resolve(); each of the 64 operand variants is rendered by the renderer "
                     "the statement prescribes; mask name tables complete, in bit order, equal to the flag declarations and the snapshot; typed literal table; generator table. Global injectivity of "
                     "the text is decided only through these necessary conditions."},
     "C10": {"technique": "static analysis: parse_literal, TypeTracker::track/resolve/new and Parser::new decided by " + EV + " over all (type kind, width) classes and every operand list the "
@@ -230,7 +231,14 @@ UPDATES = {
             "text": "On an abstract module with one distinct instruction in every declared section and four functions (complete; no definition but parameters with an unlabelled and an empty "
                     "block; definition only; no definition/parameters), with and without header/memory model, every traversal visits and every assemble_into emits exactly the logical-layout "
                     "sequence computed from the module value; mutable twins equal their read-only counterparts; header words in order."},
-    "C19": {"technique": "static analysis: MIR mutation census of Storage.data and Token construction sites, visibility facts, append/fetch_or_append/Index by " + EV},
+    "C19": {"technique": "static analysis: MIR mutation census of Storage.data and Token construction sites, visibility facts; Storage::{new, append, fetch_or_append, Index} and "
+                         "LiftStorage::{new, append_id, lookup*, unwrap} decided by " + EV + " on every bounded history",
+            "text": "Storage.data is mutated only by append (one Vec::push), tokens are built only by Token::new (crate::sr-visible), index type at least 32 bits. Every history of up to four "
+                    "append / fetch_or_append operations over two ordinary values and one unequal to itself, on a value built by Storage::new(): each append returns the token whose index is the "
+                    "number of values stored before, fetch_or_append returns the token of the first equal stored value or appends, lookups through every token handed out so far yield its value. "
+                    "Where the methods are written as len/push/Token::new(len) and position(|d| d == &value) the same holds symbolically for histories of any length. LiftStorage: every history of "
+                    "up to three append_id over two ids and two values (dense tokens, repeated id panics, lookups of used / unused ids). Histories longer than the bound with code not in the symbolic "
+                    "idiom, and index truncation past 2^32 elements, are not decided."},
     "C20": {"technique": "static analysis: main() decided by " + EV + " with the file system, clap and load_bytes as hooks; panic reachability from main over the workspace call graph; totality of the "
                          "error Display impls"},
 }
